@@ -425,6 +425,10 @@ def r6_handed_over_as_read(ctx):
             n += 1
             val = getattr(sts[0], "value", None) if len(sts) == 1 else None
             ok = isinstance(val, ast.Call) and call_name(val) in fns
+            if not ok and isinstance(val, ast.Name):
+                # a named intermediate (e.g. the result of an inlined helper): every definition is the reader's result
+                dv = [v_ for _, v_ in local_defs(f, val.id) if v_ is not None]
+                ok = bool(dv) and all(isinstance(v_, ast.Call) and call_name(v_) in fns for v_ in dv)
             ctx.check(ok, q + f"#as-read:{br}", f"{br}: the result of {fns[0]}(...) is returned as read" if ok else (f"{br}: the loaded array is rewritten {len(sts)} times in its branch (`{norm(sts[-1])[:60]}`): shape / values are not those stored in the file" if len(sts) != 1 else f"{br}: the branch stores `{norm(val)[:60]}` instead of the reader's result"), where=f, node=sts[-1] if sts else f.node)
     f = ctx.func(f"{LD}:load_table")
     sn = [c for c in calls_in(f.node) if isinstance(c.func, ast.Attribute) and c.func.attr == "sniff"]
